@@ -6,6 +6,7 @@ mod m_matcher;
 mod m_striptrim;
 mod m_sliceindex;
 mod m_strindex;
+mod m_parser;
 
 use common::*;
 use rand::{rngs::SmallRng, SeedableRng};
@@ -17,6 +18,7 @@ fn replay_line(s: &mut Summary, v: &V) {
         "StripTrim" => m_striptrim::replay(s, v),
         "SliceIndex" => m_sliceindex::replay(s, v),
         "StrIndex" => m_strindex::replay(s, v),
+        "Parser" => m_parser::replay(s, v),
         m => panic!("kh: unknown module {m}"),
     }
 }
@@ -63,6 +65,7 @@ fn main() {
                 "StripTrim" => m_striptrim::record(&mut rng, n, &mut out),
                 "SliceIndex" => m_sliceindex::record(&mut rng, n, &mut out),
                 "StrIndex" => m_strindex::record(&mut rng, n, &mut out),
+                "Parser" => m_parser::record(&mut rng, n, &mut out),
                 m => panic!("kh: unknown module {m}"),
             }
             out.flush().unwrap();
